@@ -571,9 +571,12 @@ let op_dynext opidx (_impl : string list option) toks =
       let l = { l_type = onum "l.type"; l_ri = onum "l.ri"; l_rc = onum "l.rc"; l_reqma = obool "l.reqma"; l_nc = obool "l.nc";
                 l_cnc = obool "l.cnc"; l_ss = onum "l.ss" } in
       let b x = if x then 1 else 0 in
+      (* secret, addTTL, LoopPrevention: the printed block's value when it gives one, else the template's *)
+      let pick x = let v = g ("l." ^ x) "-" in if v = "-" then g ("t." ^ x) "" else v in
+      let want_secret = pick "secret" and want_addttl = pick "addttl" and want_lp = pick "lp" in
       (match merge_dyn t l with
-       | Some r -> pr "obs %d dynext ok=1 type=%d ri=%d rc=%d reqma=%d nc=%d cnc=%d ss=%d\n" opidx (int_of_n r.d_type) (int_of_n r.d_ri)
-                     (int_of_n r.d_rc) (b r.d_reqma) (b r.d_nc) (b r.d_cnc) (int_of_n r.d_ss)
+       | Some r -> pr "obs %d dynext ok=1 type=%d ri=%d rc=%d reqma=%d nc=%d cnc=%d ss=%d slen=%d secret=%s addttl=%s lp=%s\n" opidx (int_of_n r.d_type) (int_of_n r.d_ri)
+                     (int_of_n r.d_rc) (b r.d_reqma) (b r.d_nc) (b r.d_cnc) (int_of_n r.d_ss) (String.length want_secret / 2) want_secret want_addttl want_lp
        | None -> pr "obs %d dynext ok=0\n" opidx);
       (* on the implementation's own line: each option is what was configured -- the printed block's value, else the
          template's, else the transport default; requireMessageAuthenticator is the template's *)
@@ -586,6 +589,10 @@ let op_dynext opidx (_impl : string list option) toks =
            let want_ri = match l.l_ri with Some x -> int_of_n x | None -> if int_of_n t.d_ri <> 255 then int_of_n t.d_ri else (if ty = 0 then 5 else 10) in
            spec opidx "C12_dynamic_retry_as_configured" (iv "rc" = want_rc && iv "ri" = want_ri) (Printf.sprintf "RetryCount %d (want %d) RetryInterval %d (want %d)" (iv "rc") want_rc (iv "ri") want_ri);
            spec opidx "C04_dynamic_reqma_as_configured" (iv "reqma" = b t.d_reqma) (Printf.sprintf "requireMessageAuthenticator %d, template %d" (iv "reqma") (b t.d_reqma));
+           spec opidx "C04_dynamic_secret_as_configured" (get ik "secret" "?" = want_secret && iv "slen" = String.length want_secret / 2)
+             (Printf.sprintf "secret %s used with length %d, configured %s" (get ik "secret" "?") (iv "slen") want_secret);
+           spec opidx "C13_dynamic_ttl_as_configured" (get ik "addttl" "?" = want_addttl && get ik "lp" "?" = want_lp)
+             (Printf.sprintf "addTTL %s LoopPrevention %s, configured %s %s" (get ik "addttl" "?") (get ik "lp" "?") want_addttl want_lp);
            spec opidx "C15_dynamic_namecheck_as_configured"
              (iv "nc" = b (match l.l_nc with Some x -> x | None -> t.d_nc) && (iv "cnc" = 1) = (l.l_cnc = Some true))
              (Printf.sprintf "CertificateNameCheck %d CertificateCNCheck %d" (iv "nc") (iv "cnc"))
